@@ -390,6 +390,47 @@ def same_result(a, b, name=""):
 
 
 # ------------------------------------------------------------------------------------------------
+# coordinate setters on an EXISTING object
+# ------------------------------------------------------------------------------------------------
+SETTERS = {
+    # coords(Model.X, data) on an existing object: dispatches to projective_coords / kleinian_coords (= affine_coords,
+    # chart 0) / poincare_coords / halfspace_coords / hyperboloid_coords, all of which end in set()
+    "H.Polygon": ["projective", "hyperboloid", "klein", "poincare", "halfspace"],
+    "H.Segment": ["projective", "hyperboloid", "klein", "poincare", "halfspace"],
+    # a (point, vector) pair has no affine / conformal coordinates: only the two raw R^(n,1) setters
+    "H.TangentVector": ["projective", "hyperboloid"],
+    # ideal endpoints are lightlike only up to rounding: the conformal models (sqrt(1 - |x|^2)) are left out
+    "H.Segment/ideal": ["projective", "klein"],
+    "P.Polygon": ["projective", "affine0", "affine1", "affine2"],
+    "P.Polygon/int": ["projective", "affine0", "affine1", "affine2"],
+}
+
+
+def setter_data(cls, how, arr):
+    """(coordinates handed to the setter, expected primary rows) for new projective rows `arr` (floats)."""
+    arr = np.asarray(arr, dtype=float)
+    if how == "projective" or cls == "H.TangentVector":
+        return arr.copy(), arr.copy()
+    if how.startswith("affine"):
+        # the two standard-chart coordinates of the new rows, REINTERPRETED as coordinates in chart k (no division
+        # by a possibly tiny k-th coordinate): the expected row has 1.0 inserted at position k
+        k = int(how[-1])
+        aff = arr[..., 1:].copy()
+        return aff, np.insert(aff, k, 1.0, axis=-1)
+    kl = arr[..., 1:] / arr[..., :1]
+    return np.array(hyp.klein_to(how, kl)), hyp.klein_to_projective(kl)
+
+
+def call_setter(cls, obj, how, coords):
+    from geometry_tools import hyperbolic as H
+    if how.startswith("affine"):
+        return obj.affine_coords(coords, chart_index=int(how[-1]))
+    if cls.startswith("P."):
+        return obj.projective_coords(coords)
+    return obj.coords(getattr(H.Model, how.upper()), coords)
+
+
+# ------------------------------------------------------------------------------------------------
 # histories
 # ------------------------------------------------------------------------------------------------
 def case_hist(hist):
@@ -413,7 +454,7 @@ def case_hist(hist):
         last = name
         t += 1
         mshape = model.shape[:model.ndim - len(ush)]
-        if name not in ("setitem", "queries"):
+        if name not in ("setitem", "queries", "set-coords"):
             retained.append(("receiver-of-%s" % name, obj, model))
         if name == "copy":
             obj = C(obj)
@@ -479,6 +520,37 @@ def case_hist(hist):
             else:
                 obj = C.combine([obj, other])
                 model = np.concatenate([model.astype(common).reshape((-1,) + ush), arr.astype(common).reshape((-1,) + ush)])
+        elif name == "set-coords":
+            # coordinates of the EXISTING object are (re)set through a model / affine-chart setter: the derived data
+            # must be recomputed from the new coordinates, nothing that was derived from this object earlier may move
+            how = op[1]
+            arr = fresh_data(cls, mshape, nxt, seed)
+            nxt += S.size(mshape)
+            coords, new_model = setter_data(cls, how, arr)
+            snap = coords.copy()
+            handed.append(("set-coords-array", coords, snap))
+            with warnings.catch_warnings():
+                warnings.simplefilter("ignore")      # hyperboloid coordinates of a spacelike vector row: sqrt warning
+                ret = call_setter(cls, obj, how, coords)
+            if not np.array_equal(coords, snap):
+                v.append(V("inputs/set-coords-array/%s/%s" % (how, cls), "the setter changed the caller's coordinate array:\n%r\nwas\n%r" % (coords, snap)))
+            elif cls != "H.TangentVector" and how != "hyperboloid":
+                # the setter returns the coordinates of the object in the same model / chart: what was handed in
+                ret = np.asarray(ret)
+                if how == "projective":
+                    bad = ret.shape != snap.shape or rows_err(ret, snap) > TOL
+                else:
+                    bad = ret.shape != snap.shape or not np.all(np.abs(ret - snap) <= 1e-6 * (1.0 + np.abs(snap)) ** 2)
+                if bad:
+                    v.append(V("set-coords/return/%s/%s" % (how, cls), "the setter returned\n%r\nfor the coordinates\n%r" % (ret, snap)))
+            if model.dtype.kind in "iu" and tuple(np.shape(obj.proj_data)) == tuple(model.shape) and np.asarray(obj.proj_data).dtype.kind in "iu":
+                # integer-typed object: the property does not say whether re-setting converts the new coordinates to
+                # the object's dtype or replaces the array; either is accepted for the primary data (the derived data
+                # must follow whichever it is)
+                narrow = model.copy()
+                narrow[...] = new_model
+                new_model = narrow
+            model, cx = new_model, False
         elif name == "astype":
             obj, model, cx = obj.astype(np.complex128), model.astype(np.complex128), True
         elif name == "astype-same":
@@ -508,7 +580,7 @@ def case_hist(hist):
                 break
     if not v:
         for nm, arr, snap in handed:
-            if arr.shape != snap.shape or rows_err(arr, snap) > TOL:
+            if (not np.array_equal(arr, snap)) if nm == "set-coords-array" else (arr.shape != snap.shape or rows_err(arr, snap) > TOL):
                 v.append(V("inputs/%s/%s/%s" % (nm, last, cls), "the caller's %s was changed:\n%r\nwas\n%r" % (nm, arr, snap)))
     nextops = []
     mshape = model.shape[:model.ndim - len(ush)]
@@ -537,6 +609,8 @@ def case_hist(hist):
         if not cx:
             nextops.append(["astype"])
         nextops.append(["astype-same"])
+        if root.get("setters", True):
+            nextops += [["set-coords", how] for how in SETTERS[cls]]
         if "/" not in cls:
             nextops.append(["queries"])          # queries on ideal endpoints (hyperboloid coordinates of null vectors) are C01/C14's
     raw = np.round(np.asarray(obj.proj_data).astype(complex).flatten(), 5) + (0.0 + 0.0j) if not v else None
